@@ -112,6 +112,38 @@ func c09Finding(line string) string {
 	return ""
 }
 
+// c09Spellings returns pairs of lines that differ only in how one field spells the same bytes.
+func c09Spellings() [][2]string {
+	oct := func(b string) string {
+		var sb strings.Builder
+		for i := 0; i < len(b); i++ {
+			fmt.Fprintf(&sb, "\\%03o", b[i])
+		}
+		return sb.String()
+	}
+	mixed := func(b string) string { // printable bytes and valid multi-byte characters raw, the rest (and , : \) as \ooo
+		var sb strings.Builder
+		for _, r := range b {
+			switch {
+			case r == ',' || r == ':' || r == '\\' || r < 0x20 || r == 0x7f || r == 0xfffd:
+				for _, c := range []byte(string(r)) {
+					fmt.Fprintf(&sb, "\\%03o", c)
+				}
+			default:
+				sb.WriteRune(r)
+			}
+		}
+		return sb.String()
+	}
+	var out [][2]string
+	for _, b := range []string{"caf\u00e9", "\u00e9,x", "\u00fc\\y", "\u00ff:z", "\u20ac,", "a\u0080b\\", "x\u00e9\x00y", "\U0001F600,e"} {
+		for _, tmpl := range []string{"+%s.example.com,192.0.2.1,300", "'t.example.com,%s,60", "C%s.example.com,target.example.com,60", "^%s.example.com,ptr.example.com"} {
+			out = append(out, [2]string{fmt.Sprintf(tmpl, mixed(b)), fmt.Sprintf(tmpl, oct(b))})
+		}
+	}
+	return out
+}
+
 // c09ExtraLines are hand-shaped lines the world generator does not produce.
 func c09ExtraLines(rng *rand.Rand) []string {
 	// (the last five: raw multi-byte UTF-8 characters next to something that is escaped in the same field - the normal
@@ -207,7 +239,7 @@ func c09File(text []byte, v2 bool) (string, int) {
 }
 
 func runC09(r *report.Run) {
-	r.SetRule("(a) line level: every line of generated data files (all 17 line types incl. '!' range points, both separators, default/explicit fields, octal escapes, mixed case, wildcard owners, locations, IPv4/IPv6) plus hand-shaped lines (escaped separators/backslash/space/NUL in names, wildcard SVCB/HTTPS, explicit zero fields, subnet and range-point forms) goes DecodeLn -> MarshalText -> DecodeLn; the compiled keys/values must be equal and the second MarshalText equal to the first, with CDB-style and RocksDB-style codecs and v1/v2 keys. (b) file level: dump(compile(F)) must equal dump(compile(Preprocess(F))) for v1 and v2 keys with one fixed serial, for generated worlds, for files whose maps hold 49-400 disjoint subnets and for files with hostile subnet sets (nested, adjacent, defaults, edges of the address space and of the IPv4-mapped block), whose '!' lines also go through (a). non-trivial = accepted line that is not byte-identical to its normal form; distinct by line text")
+	r.SetRule("(a) line level: every line of generated data files (all 17 line types incl. '!' range points, both separators, default/explicit fields, octal escapes, mixed case, wildcard owners, locations, IPv4/IPv6) plus hand-shaped lines (escaped separators/backslash/space/NUL in names, wildcard SVCB/HTTPS, explicit zero fields, subnet and range-point forms) goes DecodeLn -> MarshalText -> DecodeLn; a line with raw UTF-8 next to \\ooo escapes and its all-octal spelling must compile identically; the compiled keys/values must be equal and the second MarshalText equal to the first, with CDB-style and RocksDB-style codecs and v1/v2 keys. (b) file level: dump(compile(F)) must equal dump(compile(Preprocess(F))) for v1 and v2 keys with one fixed serial, for generated worlds, for files whose maps hold 49-400 disjoint subnets and for files with hostile subnet sets (nested, adjacent, defaults, edges of the address space and of the IPv4-mapped block), whose '!' lines also go through (a). non-trivial = accepted line that is not byte-identical to its normal form; distinct by line text")
 	r.Assume("lines the codec rejects are not part of the property (counted separately)")
 	nworlds := r.Pick(150, 6000)
 	seen := map[string]bool{}
@@ -234,6 +266,34 @@ func runC09(r *report.Run) {
 				r.Violation(c09Finding(line), fmt.Sprintf("line %q: %s", line, msg), c09Case{Line: line, V2: mode.v2, RDB: mode.rdb})
 			}
 		}
+	}
+	// two spellings of the same bytes - raw printable characters (multi-byte UTF-8 included) with \ooo escapes only
+	// where needed, and every byte as \ooo - must compile to the same keys and values
+	for _, pair := range c09Spellings() {
+		for _, mode := range []struct{ v2, rdb bool }{{false, false}, {true, true}} {
+			var maps [2]string
+			ok := true
+			for i, l := range pair {
+				rec, err := c09Codec(mode.v2, mode.rdb).DecodeLn([]byte(l))
+				if err != nil {
+					ok = false
+					break
+				}
+				m, err := rec.MarshalMap()
+				if err != nil {
+					ok = false
+					break
+				}
+				maps[i] = c09MapString(m)
+			}
+			r.Eval(1)
+			r.Count("spelling_pairs", 1)
+			if ok && maps[0] != maps[1] {
+				r.Violation("", fmt.Sprintf("line %q and its all-octal spelling %q compile to different keys/values:\n  raw:   %s\n  octal: %s", pair[0], pair[1], maps[0], maps[1]), c09Case{Line: pair[0], V2: mode.v2, RDB: mode.rdb})
+			}
+		}
+		check(pair[0])
+		check(pair[1])
 	}
 	rng := rand.New(rand.NewSource(r.Seed))
 	for _, l := range c09ExtraLines(rng) {
